@@ -54,7 +54,8 @@ def create_linked_view(project, prefix=None, job_ids=None, path=None):
     if job_ids is None:
         jobs = list(project)
     else:
-        jobs = list(project.open_job(id=job_id) for job_id in job_ids)
+        # An id that is named twice selects its job once.
+        jobs = list(project.open_job(id=job_id) for job_id in dict.fromkeys(job_ids))
 
     # Keys and values at every nesting level end up in the link paths.
     item_list = [
